@@ -158,6 +158,8 @@ def nontrivial_parse(case, impl, tag):
 
 
 NONTRIVIAL["parse"] = nontrivial_parse
+NONTRIVIAL["update"] = lambda c, a, t: " T 0" not in a or a.startswith("err") or a.startswith("panic")
+NONTRIVIAL["include"] = lambda c, a, t: True
 NONTRIVIAL["fmt"] = lambda c, a, t: a.startswith("ok ") and len(a.split(" ")[1]) > 1
 
 
@@ -231,5 +233,24 @@ def known_empty_sql_at_eof(item, k):
     return last in ("statement", "query", "system")
 
 
-KNOWN_PREDICATES = {"stray_carriage_return": known_stray_cr, "empty_sql_at_eof": known_empty_sql_at_eof,
+def known_valuewise_update(item, k):
+    # value-wise result mode in force somewhere in the updated tree: the updater validates and
+    # writes row-wise lines, the runner compares value-wise
+    if not item["case"].startswith("update "):
+        return False
+    t = item["case"].split(" ")
+    try:
+        j = 4
+        nl = int(t[j]); j += 1 + nl
+        nf = int(t[j]); j += 1
+        for _ in range(nf):
+            if "resultmode valuewise" in bytes.fromhex(t[j + 1][1:]).decode("utf-8", "replace"):
+                return True
+            j += 2
+    except Exception:
+        return False
+    return False
+
+
+KNOWN_PREDICATES = {"valuewise_result_mode_in_updated_tree": known_valuewise_update, "stray_carriage_return": known_stray_cr, "empty_sql_at_eof": known_empty_sql_at_eof,
                     "model_predicts_humantime_overflow_panic": known_humantime_panic}
